@@ -100,7 +100,16 @@ func (a *Analyzer) CheckRule(clause ast.Clause) error {
 				// we only need to check that variables have been bound by some earlier subgoal.
 				if !p.Predicate.IsBuiltin() {
 					if decl, ok := a.decl[p.Predicate]; ok && len(decl.Modes()) > 0 {
-						for _, v := range variablesForArgMode(p, unifyModes(decl.Modes()), ast.ArgModeOutput|ast.ArgModeInputOutput) {
+						mode := unifyModes(decl.Modes())
+						if decl.IsExternal() {
+							// An external predicate is queried with its input arguments: they need a value here.
+							for _, v := range variablesForArgMode(p, mode, ast.ArgModeInput) {
+								if !boundVars[v] {
+									return fmt.Errorf("variable %v in input position of %v will not have a value yet; move the subgoal to the right", v, p)
+								}
+							}
+						}
+						for _, v := range variablesForArgMode(p, mode, ast.ArgModeOutput|ast.ArgModeInputOutput) {
 							boundVars[v] = true
 						}
 					} else {
